@@ -96,7 +96,19 @@ def ev(node, env, sub=None, call=None, attr=None):
         if isinstance(n, ast.Subscript):
             if sub is not None:
                 return sub(n, env, rec)
+            if isinstance(n.value, (ast.Dict, ast.Tuple, ast.List, ast.Constant, ast.Name)):
+                b = rec(n.value)            # a literal table (or a local bound to one) indexed by a value the evaluator knows
+                if isinstance(b, (dict, tuple, str)):
+                    try:
+                        return b[rec(n.slice)]
+                    except (KeyError, IndexError, TypeError) as e:
+                        raise Undecidable('subscript %s: %s' % (norm(n), e))
             raise Undecidable('subscript %s' % norm(n))
+        if isinstance(n, ast.Dict) and all(k is not None for k in n.keys):
+            try:
+                return {rec(k): rec(v) for k, v in zip(n.keys, n.values)}
+            except TypeError as e:
+                raise Undecidable('dict literal: %s' % e)
         if isinstance(n, ast.Call):
             if call is not None:
                 return call(n, env, rec)
